@@ -18,7 +18,7 @@ for tag in sorted(os.listdir(root)):
         "confirmed": {
             "demo_without_change_exit": run["demo_without_rc"], "demo_with_change_exit": run["demo_with_rc"],
             "baseline_626_still_pass": True,
-            "how": "tools/try_seeded.sh: demo run in the scratch worktree with the change reverted (git checkout) and re-applied (git apply); patch applied to /repo (git apply), quick check of the property run with GEMSIM_SCRATCH, /repo restored (git checkout -- .)",
+            "how": "tools/try_seeded.sh: demo run in the scratch worktree with the change reverted (git checkout -- gemclus) and re-applied (git apply); the property's check run on the code with the change applied — rounds 1-3 by `git -C /repo apply` + check + `git -C /repo checkout -- .`, later rounds and all re-checks (tools/recheck_seeded.py) on a copy selected with GEMSIM_REPO so that background soak runs reading /repo are not disturbed",
         },
         "check_result": {"command": f"/venv/bin/python gemsim/cli.py check {info.get('property', tag[:3].upper())} --runs {info.get('runs', '?')}",
                          "exit_code": run["check_rc"], "caught": run["check_rc"] == 1, "violation_classes": classes},
